@@ -283,12 +283,13 @@ def C14(F, rep, tier, cx):
 def C15(F, rep, tier, cx):
     """structural clauses only (the behaviour over operation histories is arithmetic and NOT decided): B7 copies stay inside the container
     that holds the position; R1 position / pointer / remaining count / get count advance by the bytes copied; R2 short read at the
-    declared end, end follows the put position; B3 buffer and size field change together (nextLogContainer, new containers);
+    declared end, end follows the put position; R3 appended containers never overlap the partly filled tail; B3 buffer and size field change together (nextLogContainer, new containers);
     P5 appended containers chain their filePosition; P4 dropOldData pops only what lies behind the get position; S4 seekg is relative and
     bounded by the declared end only; E4 the failure state is sticky; K1 all of it under the stream's mutex"""
     RF.B7(F, rep)
     RF.R1(F, rep)
     RF.R2(F, rep, cx.FL)
+    RF.R3(F, rep, cx.FL)
     RF.P5(F, rep, cx.FL)
     RF.P4(F, rep, cx.FL)
     RF.S4(F, rep)
